@@ -79,6 +79,32 @@ def placements():
         for sh in shapes:
             for scope in ([], [['k1', {'s': 'outer'}]]):
                 yield {'spec': sh, 'target': {'i': 4}, 'scope': scope}
+    R = lambda k: {'k': 'sRead', 'name': k, 'steps': [], 'item': False}
+    extra = [
+        # an inner Ref definition of the same name shadows the outer one, for its own subtree only
+        {'k': 'ref', 'name': 'r', 'sub': {'k': 'dict', 'es': [
+            [{'k': 'str', 's': 'inner'}, {'k': 'ref', 'name': 'r', 'sub': {'k': 'tuple', 'xs': [
+                V({'s': 'INNER'}), {'k': 'coalesce', 'subs': [{'k': 'tuple', 'xs': [{'k': 'str', 's': 'zz'}, {'k': 'ref', 'name': 'r', 'sub': None}]}],
+                                    'dflt': T0, 'dflt_factory': None, 'skip': None, 'skip_exc': ['GlomError']}]}}],
+            [{'k': 'str', 's': 'outer'}, V({'s': 'OUTER'})]]}},
+        {'k': 'tuple', 'xs': [{'k': 'ref', 'name': 'r', 'sub': V({'s': 'one'})},
+                              {'k': 'dict', 'es': [[{'k': 'str', 's': 'a'}, {'k': 'ref', 'name': 'r', 'sub': {'k': 'tuple', 'xs': [V({'i': 2}), {'k': 'fn', 'name': 'f1', 'kind': 'inc'}]}}],
+                                                   [{'k': 'str', 's': 'b'}, {'k': 'ref', 'name': 'r', 'sub': None}]]}]},
+        {'k': 'ref', 'name': 'r', 'sub': {'k': 'tuple', 'xs': [
+            {'k': 'ref', 'name': 'r', 'sub': {'k': 'fn', 'name': 'f1', 'kind': 'wrap'}}, {'k': 'fn', 'name': 'f2', 'kind': 'len'}]}},
+        # S(a=.., b=S.a): the value of a later keyword is evaluated before any of them is bound
+        {'k': 'tuple', 'xs': [{'k': 'sBind', 'bs': [['k1', V({'s': 'new'})], ['k2', R('k1')]]}, R('k2')]},
+        {'k': 'tuple', 'xs': [{'k': 'sBind', 'bs': [['k1', R('k2')], ['k2', R('k1')]]},
+                              {'k': 'dict', 'es': [[{'k': 'str', 's': 'a'}, R('k1')], [{'k': 'str', 's': 'b'}, R('k2')]]}]},
+        # Vars(mapping): the runtime ScopeVars is a copy: writes never reach the spec's mapping / the next call
+        {'k': 'tuple', 'xs': [{'k': 'sBind', 'bs': [['vv', {'k': 'vars', 'base': [['k1', {'i': 1}]], 'defaults': []}]]},
+                              {'k': 'dict', 'es': [[{'k': 'str', 's': 'before'}, {'k': 'sVarRead', 'var': 'vv', 'name': 'k1'}],
+                                                   [{'k': 'str', 's': 'w'}, {'k': 'aVar', 'var': 'vv', 'name': 'k1'}],
+                                                   [{'k': 'str', 's': 'after'}, {'k': 'sVarRead', 'var': 'vv', 'name': 'k1'}]]}]},
+    ]
+    for sh in extra:
+        for scope in ([], [['k1', {'s': 'outer'}], ['k2', {'s': 'outer2'}]]):
+            yield {'spec': sh, 'target': {'i': 4}, 'scope': scope}
 
 
 def generate(rng, tier, scale, **focus):
@@ -114,7 +140,9 @@ def corpus():
 def run_impl(case):
     base = {k: v for k, v in case.items() if not k.startswith('impl')}
     first = ic.run_glom(base)
-    second = ic.run_glom(base)
+    built = first.pop('_built')
+    second = ic.run_glom(base, built=built)     # the same spec object, a second top-level call
+    second.pop('_built', None)
     first['impl_repeat_same'] = (first['impl'] == second['impl'] and first['impl_log'] == second['impl_log'])
     return first
 
